@@ -33,11 +33,14 @@ def make_tables(rnd, wd):
     n = rnd.randint(4, 9)
     base = pd.DataFrame({'id': list(range(n)),
                          'x': [rnd.choice([-2.5, 0.0, 1.25, 3.5, 10.0]) for _ in range(n)],
+                         'y': [rnd.choice([40.0, 55.5, 80.0, 100.0, 200.0]) for _ in range(n)],
                          's': [rnd.choice(['a', 'bc', 'é☃', 'x y', 'q1']) for _ in range(n)],
                          'd': pd.to_datetime([pd.Timestamp('2020-01-01') + pd.Timedelta(days=rnd.randint(0, 20)) for _ in range(n)])})
     pert = base.copy()
     pert.loc[0, 'x'] = 99.5
     pert.loc[1, 's'] = 'NEW-VALUE'
+    # beyond the discovered maximum, but within the tolerance of --epsilon 0.01: the verdict depends on epsilon
+    pert.loc[2, 'y'] = float(base['y'].max()) * 1.005
     return base, pert
 
 
@@ -244,7 +247,17 @@ def run(chk):
             ev['sameaslib'] = ('Constraints passing: %d' % lv.passes) in p.stdout and ('Constraints failing: %d' % lv.failures) in p.stdout
         if mode == 'detect-stdout' and p.returncode == 0:
             # the failing records are printed as CSV (record 0 and 1 were perturbed)
-            ev['sameaslib'] = 'n_failures' in p.stdout and not os.path.exists(os.path.join(d, '-'))
+            # standard output is the detection output itself: exactly what the same command writes to a named file
+            outf = os.path.join(d, 'named_output.csv')
+            p2 = subprocess.run([common.PY, '-m', 'tdda.constraints.console', 'detect', inp, tdda_path, outf], cwd=d, env=env, text=True,
+                                stdout=subprocess.PIPE, stderr=subprocess.PIPE, timeout=120)
+            filetext = open(outf, encoding='utf-8').read() if os.path.exists(outf) else '<no file written>'
+            ev['sameaslib'] = ('n_failures' in p.stdout and not os.path.exists(os.path.join(d, '-'))
+                               and p.stdout.strip().splitlines() == filetext.strip().splitlines())
+            if not ev['sameaslib']:
+                ev_extra = {'stdout_lines': p.stdout.strip().splitlines()[:30], 'file_lines': filetext.strip().splitlines()[:30]}
+            else:
+                ev_extra = {}
         if mode == 'discover-stdout' and p.returncode == 0:
             try:
                 got = json.loads(p.stdout)['fields']
@@ -255,6 +268,8 @@ def run(chk):
                 ev['sameaslib'] = False
         events.append(ev)
         detail[tid] = {'argv': argv, 'fault': mode, 'exit': p.returncode, 'stderr': p.stderr[-300:], 'stdout': p.stdout[-200:], 'subprocess': True}
+        if mode == 'detect-stdout' and p.returncode == 0:
+            detail[tid].update(ev_extra)
         chk.coverage['replayed_cases'] += 1
         shutil.rmtree(d, ignore_errors=True)
         tid += 1
